@@ -257,18 +257,140 @@ theorem quiet_of_raw (frm : PSt) (src : Proc) (r : Nat × Nat × Nat × String) 
 
 theorem shape_of_raw (frm to : PSt) (src : Proc) (rows : List (Nat × Nat × Nat × String))
     (h : raceShapeRaw frm to rows = true) :
-    ∃ rest : List (Step D), rows.map (toStep src) = .st (.cas frm to) :: rest ∧ ∀ s ∈ rest, Quiet frm s := by
+    rows.map (toStep (D := D) src) = .st (.cas frm to) :: (rows.map (toStep src)).tail ∧
+      ∀ s ∈ (rows.map (toStep (D := D) src)).tail, Quiet frm s := by
   cases rows with
   | nil => simp [raceShapeRaw] at h
   | cons r rest =>
     obtain ⟨k, a, b, m⟩ := r
     simp only [raceShapeRaw, Bool.and_eq_true, bne_iff_ne, ne_eq, beq_iff_eq, List.all_eq_true] at h
     obtain ⟨⟨hk, hc⟩, hr⟩ := h
-    refine ⟨rest.map (toStep src), ?_, ?_⟩
+    refine ⟨?_, ?_⟩
     · simp [toStep, hk, hc]
     · intro s hs
+      simp only [List.map_cons, List.tail_cons] at hs
       obtain ⟨r', hr', rfl⟩ := List.mem_map.mp hs
       exact quiet_of_raw frm src r' (hr r' hr')
+
+/-! ## The effect of the winner -/
+
+/-- Effect on the shared state of the winner's remaining steps. -/
+def applyQ : List (Step D) → Glob → Glob
+  | [], g => g
+  | .procWrite m src :: r, g => applyQ r { g with proc := g.proc.set m src }
+  | .st (.store v) :: r, g => applyQ r { g with st := v }
+  | _ :: r, g => applyQ r g
+
+/-- Until somebody wins, `rproc`'s members are untouched; afterwards the shared
+    state is heading to what the winner's step list makes of `(to, p0)`. -/
+def EffInv (frm to : PSt) (rest : Nat → List (Step D)) (p0 : Proc) (c : Cfg D) : Prop :=
+  (c.g.st = frm → c.g.proc = p0) ∧
+  (∀ w, Won frm (c.th w) → applyQ (c.th w).pend c.g = applyQ (rest w) ⟨to, p0⟩)
+
+theorem effInv_tick (fp : Foot) (cap : Nat) {frm to : PSt} (hne : frm ≠ to) {N : Nat}
+    {kall : Nat → Call D} {rest : Nat → List (Step D)}
+    (hexp : ∀ i t, expand fp t (kall i) = .st (.cas frm to) :: rest i)
+    (hq : ∀ i, ∀ s ∈ rest i, Quiet frm s) (p0 : Proc)
+    (c : Cfg D) (h : RaceInv frm to N kall rest c) (he : EffInv frm to rest p0 c) (j : Nat) :
+    EffInv frm to rest p0 (tick fp cap c j) := by
+  obtain ⟨ph, gl⟩ := h
+  obtain ⟨e1, e2⟩ := he
+  -- when the tick changes neither the shared state nor who has won
+  have same : ∀ x' : Thr D, tickEff fp cap c.g (c.th j) = ⟨c.g, x', none⟩ →
+      (Won frm x' → Won frm (c.th j) ∧ x'.pend = (c.th j).pend) →
+      EffInv frm to rest p0 (tick fp cap c j) := by
+    intro x' e hw
+    refine ⟨?_, ?_⟩
+    · simp only [tick_g, e]; exact e1
+    · intro w
+      simp only [tick_th, tick_g, e]
+      by_cases ew : w = j
+      · subst ew
+        simp only [upd_same]
+        intro a
+        obtain ⟨a1, a2⟩ := hw a
+        rw [a2]; exact e2 w a1
+      · simp only [upd_other _ _ ew]; exact e2 w
+  rcases ph j with ⟨hjN, hf | hl | hw | hd⟩ | ⟨hjN, hi⟩
+  · obtain ⟨d, w, p, k⟩ := hf
+    exact same { (c.th j) with pend := .st (.cas frm to) :: rest j, calls := [] }
+      (by simp [tickEff, d, p, k, hexp]) (fun a => absurd a (not_won_of_wins0 w))
+  · obtain ⟨d, w, p, k⟩ := hl
+    by_cases hst : c.g.st = frm
+    · have e : tickEff fp cap c.g (c.th j) =
+          ⟨{ c.g with st := to }, { (c.th j) with pend := rest j, wins := 1 }, none⟩ := by
+        simp [tickEff, stepEff, d, p, hst, w]
+      have none_before := gl.1 hst
+      refine ⟨?_, ?_⟩
+      · simp only [tick_g, e]; intro a; exact absurd a.symm hne
+      · intro w'
+        simp only [tick_th, tick_g, e]
+        by_cases ew : w' = j
+        · subst ew
+          simp only [upd_same]
+          intro _
+          have : ({ c.g with st := to } : Glob) = ⟨to, p0⟩ := by rw [← e1 hst]
+          rw [this]
+        · simp only [upd_other _ _ ew]
+          intro a; exact absurd a (none_before w').1
+    · exact same { (c.th j) with pend := rest j, dead := true }
+        (by simp [tickEff, stepEff, d, p, hst]) (fun a => absurd a (not_won_of_dead rfl))
+  · obtain ⟨d, w, k, q⟩ := hw
+    have hwon : Won frm (c.th j) := ⟨d, w, k, q⟩
+    have hst : c.g.st ≠ frm := fun e' => (gl.1 e' j).1 hwon
+    cases p : (c.th j).pend with
+    | nil => exact same (c.th j) (by simp [tickEff, d, p, k]) (fun a => ⟨a, rfl⟩)
+    | cons s r =>
+      have qs : Quiet frm s := q s (by simp [p])
+      have only_j : ∀ w', w' ≠ j → ¬ Won frm (c.th w') := fun w' ne a => ne (gl.2.2 w' j a hwon)
+      have prev := e2 j hwon
+      rw [p] at prev
+      cases s with
+      | procWrite m src =>
+        have e : tickEff fp cap c.g (c.th j) =
+            ⟨{ c.g with proc := c.g.proc.set m src }, { (c.th j) with pend := r }, none⟩ := by
+          simp [tickEff, stepEff, d, p]
+        refine ⟨?_, ?_⟩
+        · simp only [tick_g, e]; intro a; exact absurd a hst
+        · intro w'
+          simp only [tick_th, tick_g, e]
+          by_cases ew : w' = j
+          · subst ew; simp only [upd_same]; intro _; exact prev
+          · simp only [upd_other _ _ ew]; intro a; exact absurd a (only_j w' ew)
+      | st op =>
+        cases op with
+        | store v =>
+          have hv : v ≠ frm := qs
+          have e : tickEff fp cap c.g (c.th j) = ⟨{ c.g with st := v }, { (c.th j) with pend := r }, none⟩ := by
+            simp [tickEff, stepEff, d, p]
+          refine ⟨?_, ?_⟩
+          · simp only [tick_g, e]; intro a; exact absurd a hv
+          · intro w'
+            simp only [tick_th, tick_g, e]
+            by_cases ew : w' = j
+            · subst ew; simp only [upd_same]; intro _; exact prev
+            · simp only [upd_other _ _ ew]; intro a; exact absurd a (only_j w' ew)
+        | load _ => exact absurd qs (by simp [Quiet])
+        | cas _ _ => exact absurd qs (by simp [Quiet])
+        | unknown => exact absurd qs (by simp [Quiet])
+      | loc _ => exact absurd qs (by simp [Quiet])
+      | fsObs => exact absurd qs (by simp [Quiet])
+      | fsJson => exact absurd qs (by simp [Quiet])
+  · exact same (c.th j) (by simp [tickEff, hd.1]) (fun a => ⟨a, rfl⟩)
+  · obtain ⟨d, w, p, k⟩ := hi
+    exact same (c.th j) (by simp [tickEff, d, p, k]) (fun a => ⟨a, rfl⟩)
+
+theorem effInv_run (fp : Foot) (cap : Nat) {frm to : PSt} (hne : frm ≠ to) {N : Nat}
+    {kall : Nat → Call D} {rest : Nat → List (Step D)}
+    (hexp : ∀ i t, expand fp t (kall i) = .st (.cas frm to) :: rest i)
+    (hq : ∀ i, ∀ s ∈ rest i, Quiet frm s) (p0 : Proc) (σ : List Nat) :
+    ∀ c : Cfg D, RaceInv frm to N kall rest c → EffInv frm to rest p0 c →
+      EffInv frm to rest p0 (runSched fp cap c σ) := by
+  induction σ with
+  | nil => intro c _ h; exact h
+  | cons i σ ih =>
+    intro c h he
+    exact ih _ (raceInv_tick fp cap hne hexp hq c h i) (effInv_tick fp cap hne hexp hq p0 c h he i)
 
 /-! ## Non-interference -/
 
@@ -639,5 +761,36 @@ theorem run_filter (fp : Foot) (cap : Nat) (i : Nat) (σ : List Nat) :
     · have := st j e
       simp only [List.filter_cons, e, decide_false, runSched_cons, tick_stopped fp cap c j this.1 this.2]
       simpa using ih c st
+
+/-! ## Concrete configurations (for the non-vacuity examples and the driver) -/
+
+/-- `N` threads, thread `i` about to make the single call `k i`. -/
+def raceCfg (N : Nat) (k : Nat → Call D) (st : PSt) : Cfg D :=
+  { g := { st := st }, th := fun i => if i < N then { calls := [k i] } else {} }
+
+/-- Round-robin schedule. -/
+def roundRobin (n rounds : Nat) : List Nat := (List.replicate rounds (List.range n)).flatten
+
+/-- A READY process whose thread `i` (OS tid `tidOf i`) runs `prog i`. -/
+def threadsCfg (p : Proc) (tidOf : Nat → Nat) (prog : Nat → List (Call D)) : Cfg D :=
+  { g := { st := .ready, proc := p },
+    th := fun i => { t := { tid := tidOf i, s := { now := 1000 } }, calls := prog i } }
+
+theorem threadsCfg_safe (p : Proc) (tidOf : Nat → Nat) (prog : Nat → List (Call D))
+    (h : ∀ i, ∀ k ∈ prog i, CallSafe (tidOf i) k) : SafeCfg tidOf (threadsCfg p tidOf prog) := by
+  intro i
+  exact ⟨rfl, by simp [threadsCfg], h i⟩
+
+/-- The footprint of a libovni in which `ovni_proc_init` tests and sets the
+    state with a load followed by a store instead of a compare-exchange. -/
+def loadStoreFoot : Foot :=
+  { table := [],
+    order := [("ovni_proc_init", [(F.kLoad, F.stUninit, 0, "st"), (F.kStore, F.stInit, 0, "st"),
+                                 (F.kMemberWrite, 0, 0, "pid"), (F.kStore, F.stReady, 0, "st")])] }
+
+def File.size : Option (File D) → Nat
+  | some (.obs _ recs) => recs.length
+  | some (.json kv) => kv.length
+  | none => 0
 
 end Ovni.Rt.Conc
